@@ -66,7 +66,36 @@ def run(ctx):
         py = "ok " + " ".join(descr) if descr else "ok "
         if replies[i].strip() != py.strip():
             disagreements.append({"class": cl.keys[i], "python": py[:600], "model": replies[i][:600]})
+    # "from its description alone": deriving must not depend on who else is deriving, nor on order.
+    # Four threads derive every reader and writer from a cold cache in different orders (a stress
+    # run; the systematic schedules are C19's).
+    import random
+    import sys
+    import threading
+    from kio.serial import _parse, _serialize
+    _parse.entity_reader.cache_clear(); _serialize.entity_writer.cache_clear()
+    errs = []
+    def worker(k):
+        order = list(range(len(cl)))
+        random.Random(ctx.seed * 7 + k).shuffle(order)
+        for i in order:
+            for nm, mk in (("reader", entity_reader), ("writer", entity_writer)):
+                try:
+                    mk(cl.cls(i))
+                except Exception as e:  # noqa: BLE001
+                    errs.append({"what": f"no {nm} can be derived while other threads derive: {type(e).__name__}: {e}",
+                                 "class": cl.keys[i]})
+    old = sys.getswitchinterval()
+    sys.setswitchinterval(1e-6)
+    try:
+        ts = [threading.Thread(target=worker, args=(k,)) for k in range(4)]
+        for t in ts: t.start()
+        for t in ts: t.join()
+    finally:
+        sys.setswitchinterval(old)
+    fails.extend(errs[:3])
     ctx.coverage.update({
+        "concurrent_derivations": 4 * 2 * len(cl),
         "evaluations": len(cl) + nfields, "distinct_nontrivial": nfields, "exhaustive": True,
         "rule": "one case per class (reader and writer derivable) and per field (classification, optionality, "
                 "tag, tagged default compared with the model); all classes and fields; non-trivial = every field",
